@@ -489,6 +489,50 @@ func (in *Interp) unitParts(s *Term) ([]*Term, bool) {
 	return out, true
 }
 
+// explodeStr case-splits a symbolic string of unknown length into its byte-vector view when it is at
+// most k bytes long (one path per length, fresh byte variables tied to s by an equation). It reports
+// false on the path where the string is longer.
+func (in *Interp) explodeStr(s *Term, k int) (*Term, bool) {
+	if s.IsConst() {
+		return s, true
+	}
+	if _, ok := in.unitParts(s); ok {
+		return s, true
+	}
+	n := in.tb.StrLen(s, 64)
+	for l := 0; l <= k; l++ {
+		if !in.Branch(in.tb.Eq(n, in.tb.BV(64, uint64(l)))) {
+			continue
+		}
+		if l == 0 {
+			return in.tb.Str(""), true
+		}
+		var parts []*Term
+		for i := 0; i < l; i++ {
+			b := in.Nondet("strbyte", BVSort(8), "aux")
+			parts = append(parts, in.tb.StrOp("str.from_code", SortStr, in.tb.BVToInt(b)))
+		}
+		e := in.tb.Concat(parts...)
+		in.assertPC(in.tb.Eq(s, e))
+		return e, true
+	}
+	return s, false
+}
+
+// allASCII decides (forking once) whether every byte of a byte-vector string is below 0x80; the Unicode
+// case tables are out of reach of the executor, so callers keep non-ASCII text uninterpreted.
+func (in *Interp) allASCII(s *Term) bool {
+	us, ok := in.unitParts(s)
+	if !ok {
+		return false
+	}
+	c := in.tb.Bool(true)
+	for _, b := range us {
+		c = in.tb.And(c, in.tb.CmpBV("bvule", b, in.tb.BV(8, 0x7f)))
+	}
+	return in.Branch(c)
+}
+
 func (in *Interp) strIndex(s *Term, idx *Term, it types.Type) *Term {
 	tb := in.tb
 	if !s.IsConst() && idx.IsConst() {
@@ -519,7 +563,35 @@ func (in *Interp) strIndex(s *Term, idx *Term, it types.Type) *Term {
 	}
 	ii := tb.BVToInt(i64)
 	in.Obligation("panic:index out of range", tb.And(tb.CmpBV("bvsge", i64, tb.BV(64, 0)), tb.IntCmp("<", ii, tb.StrLenInt(s))), "panic")
+	if i64.IsConst() && i64.U < 64 {
+		return in.materialiseByte(s, int(i64.U))
+	}
 	return tb.IntToBV(tb.StrOp("str.to_code", SortInt, tb.StrOp("str.at", SortStr, s, ii)), 8)
+}
+
+// strMat is the materialised prefix of a symbolic string: s = byte_0 ++ ... ++ byte_{k-1} ++ rest.
+type strMat struct {
+	bytes []*Term
+	rest  *Term
+}
+
+// materialiseByte names byte i of a symbolic string (index already shown in bounds) as a bit-vector
+// variable tied to the string by a word equation. Byte scans then reason over bit-vectors instead of
+// str.at/str.to_code terms, which the string solvers decide poorly.
+func (in *Interp) materialiseByte(s *Term, i int) *Term {
+	m := in.strMats[s]
+	if m == nil {
+		m = &strMat{rest: s}
+		in.strMats[s] = m
+	}
+	for len(m.bytes) <= i {
+		b := in.Nondet("strbyte", BVSort(8), "aux")
+		r := in.Nondet("strrest", SortStr, "aux")
+		in.assertPC(in.tb.Eq(m.rest, in.tb.Concat(in.tb.StrOp("str.from_code", SortStr, in.tb.BVToInt(b)), r)))
+		m.bytes = append(m.bytes, b)
+		m.rest = r
+	}
+	return m.bytes[i]
 }
 
 func (in *Interp) lookup(x *ssa.Lookup, m Value, key Value) Value {
@@ -630,6 +702,13 @@ type strIter struct {
 	i int
 }
 
+// symStrIter ranges over the byte-vector view of a symbolic string; runes are decoded by the real
+// utf8.DecodeRuneInString.
+type symStrIter struct {
+	us []*Term
+	i  int
+}
+
 func (in *Interp) rangeIter(x Value) Value {
 	switch v := x.(type) {
 	case *Map:
@@ -641,7 +720,11 @@ func (in *Interp) rangeIter(x Value) Value {
 		return &mapIter{entries: snap, m: v}
 	case *Term:
 		if !v.IsConst() {
-			panic(in.abort("range over symbolic string at %s", in.where()))
+			us, ok := in.unitParts(v)
+			if !ok {
+				panic(in.abort("range over symbolic string of unknown length at %s", in.where()))
+			}
+			return &symStrIter{us: us}
 		}
 		return &strIter{s: v.S}
 	}
@@ -668,6 +751,28 @@ func (in *Interp) next(x *ssa.Next, it Value) Value {
 		}
 		tt := x.Type().(*types.Tuple)
 		return Tuple{tb.Bool(false), in.zero(tt.At(1).Type()), in.zero(tt.At(2).Type())}
+	case *symStrIter:
+		if i.i >= len(i.us) {
+			return Tuple{tb.Bool(false), tb.BV(64, 0), tb.BV(32, 0)}
+		}
+		pkg := in.E.Prog.ImportedPackage("unicode/utf8")
+		if pkg == nil {
+			panic(in.abort("unicode/utf8 not loaded"))
+		}
+		var parts []*Term
+		for _, b := range i.us[i.i:] {
+			parts = append(parts, in.byteToStr(b))
+		}
+		saved := in.curFrame
+		r := in.callFn(pkg.Func("DecodeRuneInString"), []Value{tb.Concat(parts...)}, nil).(Tuple)
+		in.curFrame = saved
+		n := in.concreteInt(r[1].(*Term), "rune size")
+		if n <= 0 {
+			n = 1
+		}
+		k := i.i
+		i.i += n
+		return Tuple{tb.Bool(true), tb.BV(64, uint64(k)), r[0]}
 	case *strIter:
 		if i.i >= len(i.s) {
 			return Tuple{tb.Bool(false), tb.BV(64, 0), tb.BV(32, 0)}
